@@ -19,9 +19,9 @@ type VMMonitor struct {
 	codes   map[string]int64
 	codeNm  map[int64]string
 
-	vmT, frameT, insT *types.Struct
-	iStack, iFrame    int
-	iBaseN, iCodes, iN int
+	vmT, frameT, insT       *types.Struct
+	iStack, iFrame          int
+	iBaseN, iCodes, iN      int
 	iCode, iA, iB, iC, iPos int
 }
 
